@@ -50,6 +50,10 @@ pub enum RepKind {
     /// two more `$`-templates: callers of one regex family with different templates in flight
     TemplateB,
     TemplateC,
+    /// closure that replaces, with the scenario's OTHER regex, inside the match it was given: two
+    /// threads doing this on two regexes in opposite order hold whatever a replace holds while the
+    /// replacer runs, crosswise
+    Nested,
     /// closure that searches with the same regex while the replace is in progress
     Reentrant,
 }
@@ -333,6 +337,25 @@ fn exec_op_inner(re: &Regex, text: &str, op: &Op) -> String {
                 RepKind::Template => re.try_replacen(text, *n, "<${0}>"),
                 RepKind::TemplateB => re.try_replacen(text, *n, "[$0|$1]"),
                 RepKind::TemplateC => re.try_replacen(text, *n, "$1-${0}$$"),
+                RepKind::Nested => {
+                    let peer: Option<Arc<Regex>> = PEERS.with(|p| {
+                        let p = p.borrow();
+                        if p.len() > 1 {
+                            Some(p[(op.re + 1) % p.len()].clone())
+                        } else {
+                            None
+                        }
+                    });
+                    match peer {
+                        Some(peer) => re.try_replacen(text, *n, |c: &Captures<'_>| {
+                            match peer.try_replacen(&c[0], 0, |d: &Captures<'_>| format!("({})", &d[0])) {
+                                Ok(s) => s.into_owned(),
+                                Err(e) => fmt_err(&e),
+                            }
+                        }),
+                        None => re.try_replacen(text, *n, |c: &Captures<'_>| c[0].to_string()),
+                    }
+                }
                 RepKind::Reentrant => re.try_replacen(text, *n, |c: &Captures<'_>| {
                     // re-entrant use of the same regex on the same thread, mid-replace
                     let inner = match re.find(&c[0]) {
@@ -395,6 +418,12 @@ thread_local! {
     static REFERENCE_FRESH: std::cell::RefCell<Option<Regex>> = const { std::cell::RefCell::new(None) };
 }
 
+thread_local! {
+    /// the regexes of the scenario as this thread reaches them (set by whoever runs operations on
+    /// this thread): lets a replacer closure use the *other* regex of the scenario
+    static PEERS: std::cell::RefCell<Vec<Arc<Regex>>> = const { std::cell::RefCell::new(Vec::new()) };
+}
+
 fn clone_unless_reference(re: &Regex) -> Regex {
     REFERENCE_FRESH.with(|r| r.borrow_mut().take()).unwrap_or_else(|| re.clone())
 }
@@ -410,6 +439,10 @@ pub fn solo_results(sc: &Scenario) -> Option<Vec<Vec<String>>> {
         let mut v = Vec::new();
         for op in ops {
             let re = sc.regexes[op.re].build()?;
+            if matches!(op.kind, OpKind::Replace(_, RepKind::Nested)) {
+                let fresh: Vec<Arc<Regex>> = sc.regexes.iter().map(|r| r.build().map(Arc::new)).collect::<Option<Vec<_>>>()?;
+                PEERS.with(|p| *p.borrow_mut() = fresh);
+            }
             if matches!(op.kind, OpKind::CloneAndFind | OpKind::CapturesOutliveRegex) {
                 let second = sc.regexes[op.re].build()?;
                 REFERENCE_FRESH.with(|r| *r.borrow_mut() = Some(second));
@@ -418,6 +451,7 @@ pub fn solo_results(sc: &Scenario) -> Option<Vec<Vec<String>>> {
             v.push(exec_op(&re, &sc.texts[op.text], op));
             budget::disarm();
             REFERENCE_FRESH.with(|r| *r.borrow_mut() = None);
+            PEERS.with(|p| p.borrow_mut().clear());
         }
         out.push(v);
     }
@@ -482,12 +516,14 @@ pub fn run_concurrent(sc: &Scenario, seed: u64, policy: Policy) -> Option<RunRes
                     } else {
                         originals
                     };
+                    PEERS.with(|p| *p.borrow_mut() = regs.clone());
                     for op in &ops {
                         let r = exec_op_with(&regs[op.re], &texts[op.text], op, Some(&mail));
                         mine.push(r);
                         sched::yield_now(SITE_OP_BOUNDARY);
                     }
                     verif::set_yield_hook(None);
+                    PEERS.with(|p| p.borrow_mut().clear());
                     results.lock().unwrap()[t] = mine;
                     drop(regs);
                     drop(mail);
@@ -669,7 +705,7 @@ fn gen_scenario(rng: &mut Rng, max_threads: usize) -> Option<Scenario> {
                 10 => OpKind::SplitN(rng.below(4)),
                 11 | 12 => OpKind::Replace(
                     rng.below(3),
-                    rng.pick(&[RepKind::Identity, RepKind::Const, RepKind::NoExpand, RepKind::Template, RepKind::TemplateB, RepKind::TemplateC, RepKind::Reentrant]).clone(),
+                    rng.pick(&[RepKind::Identity, RepKind::Const, RepKind::NoExpand, RepKind::Template, RepKind::TemplateB, RepKind::TemplateC, RepKind::Reentrant, RepKind::Nested]).clone(),
                 ),
                 13 => OpKind::CloneAndFind,
                 14 => OpKind::CapturesOutliveRegex,
@@ -798,6 +834,7 @@ fn op_from_json(v: &Value) -> Option<Op> {
                 "Template" => RepKind::Template,
                 "TemplateB" => RepKind::TemplateB,
                 "TemplateC" => RepKind::TemplateC,
+                "Nested" => RepKind::Nested,
                 "Reentrant" => RepKind::Reentrant,
                 _ => return None,
             },
